@@ -411,6 +411,11 @@ def engine : Engine DState where
         | none => "model-disabled"
         | some s => if allFinished s then "clean" else "model-stuck"
       (d, { model := model, violated := monEnd d.mon impl })
+    | "sess" :: _ =>
+      -- stream `sess` (two real sessions, zz_verif_sesslevel_test.go): the session-level monitors of
+      -- C01–C05 are evaluated by the Go harness; the model's observation of every case is "clean"
+      -- and any other text is the violated clause (it starts with the property id).
+      (d, { model := "clean", violated := if impl == "clean" then none else some impl })
     | _ =>
       match parseLabel toks with
       | none => (d, { model := "bad-op" })
